@@ -9,6 +9,7 @@ import tempfile
 from contextlib import contextmanager
 
 from .core import hx
+from .gitobj_common import source_tokens, splice_token
 
 NAME_ALPHA = [b"a", b"b", b".", b"-", b"0", b" ", b"\n", b"\x80", b"\xff", b"A", b"~", b"_", b"\xc3\xa9", b"B"]
 FILE_MODES = [0o600, 0o644, 0o700, 0o755, 0o610, 0o601, 0o654, 0o641, 0o711, 0o400,
@@ -18,7 +19,21 @@ if os.geteuid() != 0:       # without privileges an unreadable file cannot be ha
     FILE_MODES = [m for m in FILE_MODES if m & 0o400]
 
 
+def token_bytes(rng, base=b"", slash=False):
+    """a literal harvested from the source of the repository under test (or a well-known neighbour such as '.git', 'HEAD',
+    'refs/tags/'), alone or spliced into `base`; NUL removed, '/' removed unless asked for, at most 255 bytes, never empty"""
+    x = splice_token(rng, base, "bytes") if base else rng.choice(source_tokens("bytes"))
+    x = x.replace(b"\0", b"")
+    if not slash:
+        x = x.replace(b"/", b"")
+    return x[:255] or b"tok"
+
+
 def gen_name(rng, taken):
+    if rng.random() < 0.1:          # the fuzzers' dictionary trick: a special case keyed on a literal of the code gets exercised
+        nm = token_bytes(rng, rng.choice([b"", b"", b"a", b"dir", b"x y", b"\xff\xfe", b"n.c"]))
+        if nm not in taken and nm not in (b".", b".."):
+            return nm
     base = [b"a", b"a.b", b"a-", b"a0", b"ab", b"A", b"dir", b"Dir", b".git", b"x y", b"n\nl", b"\xff\xfe", b"empty"]
     if rng.random() < 0.01:
         nm = bytes([rng.choice(b"nN\xff")]) * 255          # the longest name a directory can hold
@@ -55,6 +70,7 @@ def gen_tree(rng, depth=0, budget=None, opts=None):
             kids.append([nm.hex(), gen_tree(rng, depth + 1, budget, opts)])
         elif r < 0.42:
             kids.append([nm.hex(), {"t": "L", "x": rng.choice([b"a", b"../x", b"/etc/passwd", b"dangling", nm, b".", b"sub/dir",
+                                                                 token_bytes(rng, rng.choice([b"", b"a", b"../x"]), slash=True),
                                                                  bytes(rng.randrange(1, 256) for _ in range(rng.randrange(1, 9)))]).hex()}])
         elif r < 0.47 and not opts.get("no_special"):
             kids.append([nm.hex(), {"t": "S", "m": rng.choice(FILE_MODES), "k": rng.choice(SPECIAL_KINDS)}])
